@@ -57,6 +57,9 @@ func (x *Exec) callWith(fr *Frame, st *State, c *ssa.CallCommon, fnv Value, args
 		for i := 0; i < sig.Params().Len(); i++ {
 			names = append(names, sig.Params().At(i).Name())
 		}
+		if len(spec.Params) == len(names) {
+			names = spec.Params // the contract's own parameter list binds by position
+		}
 		return x.applyContract(fr, st, spec, key, names, append([]Value{recv}, args...), x.resultType(c), resultNames(sig), pos)
 	}
 	switch f := fnv.(type) {
@@ -335,7 +338,7 @@ func (x *Exec) applyHavoc(st *State, pre *State, spec *FuncSpec, mods []modTarge
 			// every leaf whose key is m.key or extends it
 			n := 0
 			for _, k := range x.leafKeys() {
-				if k == m.key || strings.HasPrefix(k, m.key+".") || strings.HasPrefix(k, m.key+"#") || strings.HasPrefix(k, m.key+"@") {
+				if k == m.key || strings.HasPrefix(k, m.key+".") || strings.HasPrefix(k, m.key+"#") || strings.HasPrefix(k, m.key+"@") || strings.HasPrefix(k, m.key+"[") {
 					st.Heap[k] = x.em.freshConst("Hc."+k, x.leaves[k].ArraySort())
 					x.recordWrite(k, "", true)
 					n++
@@ -500,7 +503,7 @@ func (x *Exec) applyContract(fr *Frame, st *State, spec *FuncSpec, key string, n
 	for _, a := range spec.Allocates[:0] {
 		// objects of these classes may have been created: old objects keep their leaves
 		for _, k := range x.leafKeys() {
-			if k == a || strings.HasPrefix(k, a+".") || strings.HasPrefix(k, a+"#") || strings.HasPrefix(k, a+"@") {
+			if k == a || strings.HasPrefix(k, a+".") || strings.HasPrefix(k, a+"#") || strings.HasPrefix(k, a+"@") || strings.HasPrefix(k, a+"[") {
 				l := x.leaves[k]
 				old := x.heapGet(st, l)
 				nw := x.em.freshConst("Ha."+k, l.ArraySort())
@@ -752,7 +755,7 @@ func (x *Exec) checkClosure(fr *Frame, st *State, cl Closure, cb *FuncSpec, call
 		}
 		ok := cb.ModAll
 		for _, m := range mods {
-			if m.whole && (k == m.key || strings.HasPrefix(k, m.key+".") || strings.HasPrefix(k, m.key+"#") || strings.HasPrefix(k, m.key+"@")) {
+			if m.whole && (k == m.key || strings.HasPrefix(k, m.key+".") || strings.HasPrefix(k, m.key+"#") || strings.HasPrefix(k, m.key+"@") || strings.HasPrefix(k, m.key+"[")) {
 				ok = true
 			}
 		}
